@@ -37,14 +37,28 @@ static const char* region_name(int features) {
     switch (features) { case 1: return "vertex_a"; case 2: return "vertex_b"; case 4: return "vertex_c"; case 8: return "edge_ab"; case 16: return "edge_ac"; case 32: return "edge_bc"; case 64: return "interior"; default: return "impossible"; }
 }
 
-struct Motion { std::array<double, 9> R; std::array<double, 3> t; bool exact; std::string name; };
+
+// independent reference for the closest POINT (the squared distance is insensitive to first order to an error in the point): the textbook region walk in long double on the integer
+// lattice coordinates, where every product and sum is exact (|values| < 2^20) and only the final quotients round (2^-64).  The closest point of a non-degenerate triangle is unique.
+static void closest_point_ld(const I3& P, const I3& A, const I3& B, const I3& C, long double q[3]) {
+    auto D = [](const I3& u, const I3& v) { return (long double)u.x * v.x + (long double)u.y * v.y + (long double)u.z * v.z; };
+    auto set = [&](long double wa, long double wb, long double wc) { q[0] = wa * A.x + wb * B.x + wc * C.x; q[1] = wa * A.y + wb * B.y + wc * C.y; q[2] = wa * A.z + wb * B.z + wc * C.z; };
+    I3 ab = sub(B, A), ac = sub(C, A), ap = sub(P, A); long double d1 = D(ab, ap), d2 = D(ac, ap); if (d1 <= 0 && d2 <= 0) return set(1, 0, 0);
+    I3 bp = sub(P, B); long double d3 = D(ab, bp), d4 = D(ac, bp); if (d3 >= 0 && d4 <= d3) return set(0, 1, 0);
+    long double vc = d1 * d4 - d3 * d2; if (vc <= 0 && d1 >= 0 && d3 <= 0) { long double v = d1 / (d1 - d3); return set(1 - v, v, 0); }
+    I3 cp = sub(P, C); long double d5 = D(ab, cp), d6 = D(ac, cp); if (d6 >= 0 && d5 <= d6) return set(0, 0, 1);
+    long double vb = d5 * d2 - d1 * d6; if (vb <= 0 && d2 >= 0 && d6 <= 0) { long double w = d2 / (d2 - d6); return set(1 - w, 0, w); }
+    long double va = d3 * d6 - d5 * d4; if (va <= 0 && (d4 - d3) >= 0 && (d5 - d6) >= 0) { long double w = (d4 - d3) / ((d4 - d3) + (d5 - d6)); return set(0, 1 - w, w); }
+    long double den = va + vb + vc; return set(va / den, vb / den, vc / den); }
+
+struct Motion { std::array<double, 9> R; std::array<double, 3> t; bool exact; std::string name; double s = 1;   /* uniform scaling applied before the rotation: a factor that is not a power of two takes the dot products of the kernel off the values single precision can hold */ };
 
 static vec3 apply(const Motion& m, double x, double y, double z) {
-    return vec3(m.R[0] * x + m.R[1] * y + m.R[2] * z + m.t[0], m.R[3] * x + m.R[4] * y + m.R[5] * z + m.t[1], m.R[6] * x + m.R[7] * y + m.R[8] * z + m.t[2]);
+    x *= m.s; y *= m.s; z *= m.s; return vec3(m.R[0] * x + m.R[1] * y + m.R[2] * z + m.t[0], m.R[3] * x + m.R[4] * y + m.R[5] * z + m.t[1], m.R[6] * x + m.R[7] * y + m.R[8] * z + m.t[2]);
 }
 
 // checks one evaluation; returns "" or the violated clause
-static std::string check(const vec3& p, const vec3& a, const vec3& b, const vec3& c, double exact, double scale2, double* sq_out = nullptr) {
+static std::string check(const vec3& p, const vec3& a, const vec3& b, const vec3& c, double exact, double scale2, double* sq_out = nullptr, const long double* q_expected = nullptr, double q_tol = 0) {
     auto [sq, bary] = contact_model_abstract::compute_node_triangle_distance(p, a, b, c);
     if (sq_out) *sq_out = sq;
     const double u = bary.dx(), v = bary.dy(), w = bary.dz();
@@ -61,6 +75,8 @@ static std::string check(const vec3& p, const vec3& a, const vec3& b, const vec3
     const double tol = 1e-9 * (scale2 + exact);
     if (std::fabs(dq - exact) > tol) { snprintf(buf, sizeof buf, "designated-point-is-not-the-closest-point: |bary point - p|^2=%.12g exact minimum=%.12g", dq, exact); return buf; }
     if (std::fabs(sq - exact) > tol) { snprintf(buf, sizeof buf, "returned-squared-distance-wrong: returned %.12g exact %.12g", sq, exact); return buf; }
+    if (q_expected) { long double ex = (qx + a.dx()) - q_expected[0], ey = (qy + a.dy()) - q_expected[1], ez = (qz + a.dz()) - q_expected[2]; double e = (double)sqrtl(ex * ex + ey * ey + ez * ez);
+        if (e > q_tol) { snprintf(buf, sizeof buf, "designated-point-is-not-the-closest-point: it lies %.3g away from the unique closest point (tolerance %.3g), barycentric coordinates (%.17g,%.17g,%.17g)", e, q_tol, u, v, w); return buf; } }
     return "";
 }
 
@@ -80,6 +96,9 @@ static void explore(Result& R) {
         motions.push_back({sc::rot_z_345(), trans[ti], false, "rot_z_345+t" + std::to_string(ti)});
         motions.push_back({sc::matmul(sc::rot_x_51213(), sc::rot_z_345()), trans[ti], false, "rot_x_51213*rot_z_345+t" + std::to_string(ti)});
     }
+    // scaled copies (the property holds for every triangle: the scaled lattice is as good a family as the lattice, and its dot products are not small dyadic numbers)
+    { std::vector<std::pair<double, int>> sc_menu = {{0.3, 0}, {1.7, 1}}; if (th) { sc_menu.push_back({1.1e-6, 0}); sc_menu.push_back({733.1, 2}); sc_menu.push_back({1.0 / 3.0, 1}); }
+      for (auto& sm : sc_menu) { Motion a{rots[0], trans[sm.second], false, "scale" + std::to_string(sm.first) + "+t" + std::to_string(sm.second)}; a.s = sm.first; motions.push_back(a); Motion b{sc::rot_z_345(), trans[sm.second], false, "scale" + std::to_string(sm.first) + "*rot_z_345+t" + std::to_string(sm.second)}; b.s = sm.first; motions.push_back(b); } }
     // vertex orders
     std::vector<std::array<int, 3>> orders = {{0, 1, 2}};
     if (th) orders = {{0, 1, 2}, {1, 2, 0}, {2, 0, 1}, {0, 2, 1}, {2, 1, 0}, {1, 0, 2}};
@@ -98,15 +117,17 @@ static void explore(Result& R) {
             int feat; bool onb; Frac f = exact_dist2(P, A, B, C, feat, onb); configs++;
             reg[region_name(feat)]++; if (onb) reg["of_which_exactly_on_a_region_boundary"]++;
             const double exact = (double)f.n / (double)f.d / 4.0;   // coordinates were doubled
-            I3 T[3] = {A, B, C};
+            I3 T[3] = {A, B, C}; long double ql[3]; closest_point_ld(P, A, B, C, ql);
             for (const auto& ord : orders) for (const Motion& m : motions) {
                 vec3 a = apply(m, T[ord[0]].x / 2.0, T[ord[0]].y / 2.0, T[ord[0]].z / 2.0), b = apply(m, T[ord[1]].x / 2.0, T[ord[1]].y / 2.0, T[ord[1]].z / 2.0),
                      c = apply(m, T[ord[2]].x / 2.0, T[ord[2]].y / 2.0, T[ord[2]].z / 2.0), p = apply(m, P.x / 2.0, P.y / 2.0, P.z / 2.0);
-                double sq; std::string err = check(p, a, b, c, exact, 4.0, &sq); evals++;
-                worst = std::max(worst, std::fabs(sq - exact));
+                long double qm[3]; for (int r = 0; r < 3; r++) qm[r] = (long double)m.R[3*r] * (m.s * (double)(ql[0] / 2)) + (long double)m.R[3*r+1] * (m.s * (double)(ql[1] / 2)) + (long double)m.R[3*r+2] * (m.s * (double)(ql[2] / 2)) + m.t[r];
+                const double tmax = std::max({std::fabs(m.t[0]), std::fabs(m.t[1]), std::fabs(m.t[2])});
+                double sq; std::string err = check(p, a, b, c, exact * m.s * m.s, 4.0 * m.s * m.s, &sq, qm, 2e-11 * m.s + 64 * 2.3e-16 * tmax); evals++;
+                worst = std::max(worst, std::fabs(sq - exact * m.s * m.s) / (m.s * m.s));
                 if (!err.empty()) {
                     std::string key = sc::clause_of(err) + "|region=" + region_name(feat) + "|" + (m.exact ? (m.t[0] == 0 && m.t[1] == 0 && m.t[2] == 0 ? "at-origin" : "translated") : "rotated");
-                    R.violation(key, err + " [motion " + m.name + "]", "p=" + v3hex(p) + "\na=" + v3hex(a) + "\nb=" + v3hex(b) + "\nc=" + v3hex(c) + "\nexact=" + dhex(exact) + "\n");
+                    R.violation(key, err + " [motion " + m.name + "]", "p=" + v3hex(p) + "\na=" + v3hex(a) + "\nb=" + v3hex(b) + "\nc=" + v3hex(c) + "\nexact=" + dhex(exact * m.s * m.s) + "\nscale2=" + dhex(4.0 * m.s * m.s) + "\nq=" + v3hex(vec3((double)qm[0], (double)qm[1], (double)qm[2])) + "\nqtol=" + dhex(2e-11 * m.s + 64 * 2.3e-16 * tmax + 4 * 2.3e-16 * (tmax + 4 * m.s)) + "\n");
                 }
             }
             if (configs % 500000 == 1) R.sample("{\"triangle_x2\":[[" + std::to_string(A.x) + "," + std::to_string(A.y) + "," + std::to_string(A.z) + "],[" + std::to_string(B.x) + "," + std::to_string(B.y) + "," + std::to_string(B.z) + "],[" + std::to_string(C.x) + "," + std::to_string(C.y) + "," + std::to_string(C.z) + "]],\"point_x2\":[" + std::to_string(P.x) + "," + std::to_string(P.y) + "," + std::to_string(P.z) + "],\"exact_d2\":" + jnum(exact) + ",\"region\":\"" + region_name(feat) + "\"}");
@@ -120,12 +141,13 @@ static void explore(Result& R) {
     if (empty) R.internal_error = "a Voronoi region was never exercised (vacuous enumeration)";
     R.strings["rule"] = "all non-collinear triangles with vertices in {0,1,2}^3 x all query points of the half-integer lattice {-1,...,3}^3 (a configuration = one (triangle, point) pair, counted as distinct_nontrivial/states; classified by the exact set of closest features), each evaluated under every listed rigid motion and vertex order (evaluations/transitions); reference = exact rational minimum over the 7 features";
     R.assumptions = {"reference distance is computed exactly on the untransformed integer lattice; rigid motions preserve it (cube rotations and dyadic translations map the lattice exactly, the two Pythagorean rotations round to 1 ulp)",
-                     "tolerance 1e-9*(4+d^2) absolute on squared distances, 1e-12 on barycentric sign/sum", "collinear (degenerate) triangles are outside the statement and skipped"};
+                     "tolerance 1e-9*(4+d^2) absolute on squared distances, 1e-12 on barycentric sign/sum; the designated point must lie within 2e-11 + 64 eps |t| of the unique closest point (independent long-double reference on the integer lattice, moved with the configuration)", "collinear (degenerate) triangles are outside the statement and skipped"};
 }
 
 static int replay(const Replay& rp, Result& R) {
-    vec3 p = v3parse(rp.get("p")), a = v3parse(rp.get("a")), b = v3parse(rp.get("b")), c = v3parse(rp.get("c")); double exact = rp.getd("exact");
-    std::string e1 = check(p, a, b, c, exact, 4.0), e2 = check(p, a, b, c, exact, 4.0);
+    vec3 p = v3parse(rp.get("p")), a = v3parse(rp.get("a")), b = v3parse(rp.get("b")), c = v3parse(rp.get("c")); double exact = rp.getd("exact"); const double scale2 = rp.get("scale2").empty() ? 4.0 : rp.getd("scale2");
+    long double q[3]; bool have_q = !rp.get("q").empty(); double qtol = 0; if (have_q) { vec3 qv = v3parse(rp.get("q")); q[0] = qv.dx(); q[1] = qv.dy(); q[2] = qv.dz(); qtol = rp.getd("qtol"); }   /* the expected point is stored rounded to double: the stored tolerance includes that rounding */
+    std::string e1 = check(p, a, b, c, exact, scale2, nullptr, have_q ? q : nullptr, qtol), e2 = check(p, a, b, c, exact, scale2, nullptr, have_q ? q : nullptr, qtol);
     if (e1 != e2) { printf("replay diverged\n"); return 0; }
     auto [sq, bary] = contact_model_abstract::compute_node_triangle_distance(p, a, b, c);
     printf("returned squared distance %.17g barycentric (%.17g, %.17g, %.17g); exact %.17g\n", sq, bary.dx(), bary.dy(), bary.dz(), exact);
